@@ -48,11 +48,11 @@ static void outhex(const void *p, size_t n) {
     for (size_t i = 0; i < n; i++) { outc(hx[b[i] >> 4]); outc(hx[b[i] & 15]); }
 }
 /* independent check of the invariant on the public fields: 0 fine, else the first violated clause */
-static int indep;
+static int indep; static unsigned long dumpcount;
 static void dump(qhashtbl_t *t) {
     char tmp[64]; size_t count = 0; int first = 1;
     printf(" | num=%zu range=%zu ", t->num, t->range);
-    fnv = 0x811c9dc5u; indep = 0;
+    fnv = 0x811c9dc5u; indep = 0; dumpcount++;
     size_t nodes = 0;
     for (size_t i = 0; i < t->range; i++) for (qhashtbl_obj_t *o = t->slots[i]; o && nodes < (1u << 24); o = o->next) nodes++;
     ids_begin(nodes);
@@ -69,7 +69,8 @@ static void dump(qhashtbl_t *t) {
             count++;
             if (o->hash != qhashmurmur3_32(o->name, strlen(o->name)) && !indep) indep = 1;
             if (o->hash % t->range != i && !indep) indep = 2;
-            for (qhashtbl_obj_t *q = o->next; q; q = q->next) if (!strcmp(q->name, o->name) && !indep) indep = 3;
+            if (dumpmode || (dumpcount % 61) == 0)   /* quadratic in the chain length: always on small dumps, sampled on digest dumps */
+                for (qhashtbl_obj_t *q = o->next; q; q = q->next) if (!strcmp(q->name, o->name) && !indep) indep = 3;
         }
     }
     if (count != t->num && !indep) indep = 4;
@@ -80,6 +81,7 @@ static void dump(qhashtbl_t *t) {
 
 int main(void) {
     qv_install();
+    { struct sigaction sa; memset(&sa, 0, sizeof sa); sa.sa_handler = qv_segv; sa.sa_flags = SA_NODEFER; sigaction(SIGFPE, &sa, NULL); }   /* hash % 0 */
     qhashtbl_t *t = qhashtbl(0, 0); int dead = 0;
     while (fgets(line, sizeof line, stdin)) {
         if (line[0] == '#' || line[0] == '\n') continue;
@@ -173,5 +175,7 @@ int main(void) {
         } else { printf("%s\n", qv_sig == SIGALRM ? "TIMEOUT" : "CRASH"); dead = 1; }
         fflush(stdout);
     }
+    if (t && !dead) qhashtbl_free(t);
+    free(prevmap);
     return 0;
 }
